@@ -18,7 +18,7 @@ def C(c, cmd, via="case", **kw):
     d.update(kw)
     return d
 
-def made():
+def made(pid=None):
     s = []
     com = lambda c, complete=True: {"op": "Commission", "c": c, "complete": complete}
     rd = lambda c, fresh=True: {"op": "Read", "c": c, "fresh": fresh}
@@ -101,7 +101,21 @@ def made():
     for lead in (59000, 59300, 59650):
         s.append([com(1), rd(1), com(2, False), w(lead)] + [x for _ in range(14) for x in (rd(1, False), w(100))] + [rd(1, False), rd(2, False), rd(1)])
     # every history once more with administrators that use different node ids
-    return s + [[{"op": "Config", "ids": "diff"}] + x for x in s]
+    s = s + [[{"op": "Config", "ids": "diff"}] + x for x in s]
+    # key-value store failures (KvFail: the next mutating store operation returns an error and changes nothing) - decided
+    # for C08 and C11 only (DESIGN.md 8.2: what C07 demands after a RemoveFabric that answered Failure is not settled)
+    if pid in ("C08", "C11"):
+        kf, R, P = {"op": "KvFail", "k": 0}, {"op": "Restart"}, (lambda c: {"op": "Pase", "c": c})
+        s.append([com(1), C(1, "arm"), C(1, "label"), kf, C(1, "complete"), rd(1), w(3000), R, rd(1)])          # F-C08e
+        s.append([com(1), com(2, False), kf, C(2, "complete"), rd(2), w(61000), rd(2), R, rd(2), rd(1)])       # F-C08e
+        s.append([com(1), com(2), kf, C(1, "remove", idx=2), rd(1), w(3000), R, rd(1), rd(2)])
+        s.append([com(1), kf, C(1, "label"), rd(1), w(3000), R, rd(1), C(1, "label"), R, rd(1)])
+        s.append([com(1), com(2, False), kf, w(61000), rd(1), rd(2)])
+        s.append([com(1), rd(1), kf, w(3000), rd(1), w(3000), R, rd(1)])
+        # TLC's counterexample of MCLifeKv at 15 operations (a removal that failed in the store, the index re-used, rollback)
+        s.append([com(1), P(1), C(1, "csr", via="pase"), C(1, "root", via="pase"), kf, C(1, "remove", idx=1), C(1, "noc", via="pase"), rd(1), C(1, "revoke"), rd(1, False), rd(1)])
+        s.append([com(1), com(2), P(2), C(2, "csr", via="pase"), C(2, "root", via="pase"), kf, C(1, "remove", idx=2), C(2, "noc", via="pase"), rd(2), w(61000), rd(2, False), rd(1)])
+    return s
 
 def translate(ops):
     """Model operations -> harness operations (the model's `Read` with fresh = TRUE may need a commissioned fabric)."""
@@ -124,8 +138,18 @@ def foreign_pase(r):
     return (last is not None and last.get("op") == "Cmd" and last.get("via") == "pase" and armed_by is not None
             and armed_by[1] == "pase" and armed_by[0] != last.get("c") and last.get("cmd") in ("arm", "arm0", "csr", "root", "noc", "csru", "unoc"))
 
+def failed_complete(r):
+    """The rejected state follows a CommissioningComplete that answered Failure because its store write failed (KvFail
+    injected right before it) and shows the fail-safe idle (open finding F-C08e)."""
+    ops = [x for x in r["run"][:r["at"]] if x.get("ev") == "Op"]
+    e = r["event"]
+    return (len(ops) >= 2 and ops[-1].get("op") == "Cmd" and ops[-1].get("cmd") == "complete" and ops[-1].get("code") == "ERR Failure"
+            and ops[-2].get("op") == "KvFail" and e.get("ev") == "State" and not e["fs"]["armed"])
+
 def signature(pid, r):
     e = r["event"]
+    if pid == "C08" and e.get("ev") == "State" and failed_complete(r):
+        return "C08|CommissioningComplete-with-a-failing-store-disarms-the-fail-safe-and-stores-nothing"
     if pid == "C08" and e.get("ev") == "State" and foreign_pase(r):
         return "C08|credential-command-over-another-PASE-session-accepted-in-the-armed-context"
     if e.get("ev") == "Op":
@@ -143,6 +167,16 @@ def run(pid, tier, seed):
         raise vlib.ToolError("Life.tla (repaired variant) violates its invariants (%s):\n%s" % (mc["violated"], mc["out_tail"]))
     own = {"C07": ["NoOldSessionOnNewFabric", "NoOldResumptionOnNewFabric"], "C08": ["NeverStuck"], "C11": ["CommittedSurvives"]}[pid]
     sens = {}
+    kvmc = None
+    if pid in ("C08", "C11"):
+        # the same model with store failures injected: the other invariants must hold, CommittedOrUndone must be violated (F-C08e)
+        kvmc = vlib.tlc_mc(pid, "Life.tla", "MCLifeKv.cfg", workers=8, timeout=1800, tag="kv")
+        if not kvmc["ok"]:
+            raise vlib.ToolError("Life.tla with store failures violates its invariants (%s):\n%s" % (kvmc["violated"], kvmc["out_tail"]))
+        r = vlib.tlc_mc(pid, "Life.tla", "MCLifeKv_CommittedOrUndone.cfg", workers=4, timeout=900, tag="kv_cou")
+        if r["ok"]:
+            raise vlib.ToolError("Life.tla with store failures does not show the failed CommissioningComplete (CommittedOrUndone holds)")
+        sens["CommittedOrUndone (store failures; the code as it is, open finding F-C08e)"] = r["violated"]
     for inv in own:
         r = vlib.tlc_mc(pid, "Life.tla", "MCLife_orig_%s.cfg" % inv, workers=4, timeout=900, tag="orig_" + inv)
         if r["ok"]:
@@ -153,7 +187,7 @@ def run(pid, tier, seed):
     rnd = random.Random(seed)
     if quick:
         sim = rnd.sample(sim, min(120, len(sim)))
-    beh = made() + [translate(b) for b in sim] + [[{"op": "Config", "ids": "diff"}] + translate(b) for b in sim[:len(sim) // 3]]
+    beh = made(pid) + [translate(b) for b in sim] + [[{"op": "Config", "ids": "diff"}] + translate(b) for b in sim[:len(sim) // 3]]
     bpath = os.path.join(wd, "behaviours.ndjson")
     vlib.write_ndjson(bpath, beh)
     tpath = os.path.join(wd, "trace.ndjson")
@@ -194,9 +228,9 @@ def run(pid, tier, seed):
     opsn = [e for e in ev if e.get("ev") == "Op"]
     ck.cov.update({
         "states": mc["distinct"] + states, "transitions": mc["generated"] + gen_states, "traces_validated_against_impl": n_runs, "exhaustive": False,
-        "design_model_runs": [{k2: mc[k2] for k2 in ("cfg", "generated", "distinct", "depth", "wall_s")}], "design_models_exhaustive": True,
+        "design_model_runs": [{k2: m[k2] for k2 in ("cfg", "generated", "distinct", "depth", "wall_s")} for m in (mc, kvmc) if m], "design_models_exhaustive": True,
         "model_sensitivity": sens,
-        "generator": {"simulated": len(sim), "harness_made": len(made())},
+        "generator": {"simulated": len(sim), "harness_made": len(made(pid))},
         "replay": summ,
         "trace_validation": {"spec": "LifeTrace.tla (Layer P = LifeProp.tla, Which = %s)" % pid, "events": len(ev), "states": states, "rejected_runs": len(rej),
                              "operations": len(opsn), "commissionings": sum(1 for o in opsn if o["op"] == "Commission"), "restarts": sum(1 for o in opsn if o["op"] == "Restart"),
@@ -206,5 +240,5 @@ def run(pid, tier, seed):
     })
     ck.assumptions += ["the 'fabric data' written outside / inside a fail-safe is represented by UpdateFabricLabel; ACL, group and network writes go through the same persistence path (ACL writes are additionally exercised by C06)",
                        "network credentials: the device uses the Ethernet root endpoint (no network commissioning cluster state to roll back)",
-                       "key-value store failures are not injected (power cuts are: the store is cut back to a prefix of its operation log)"]
+                       "key-value store failures: C08 and C11 inject one failing store operation right before CommissioningComplete, RemoveFabric, UpdateFabricLabel, the fail-safe expiry and the lazy resumption writer (8 histories; Life.tla with StoreFaults = TRUE explores every placement up to 11 operations); C07 does not inject them; power cuts: the store is cut back to a prefix of its operation log"]
     return ck.finish()
